@@ -234,6 +234,9 @@ def tasks(ctx):
     ts.append(Task("(*memory.rtc).tick", "(*memory.rtc).tick", keep=keep_labels({"halted", "count", "ok"})))
     ts.append(Task("(*timer.Timer).EndMachineCycle", "(*timer.Timer).EndMachineCycle", keep=keep_labels({"counter", "irq"})))
     ts.append(pc.ppu_task("EndMachineCycle", ["off", "ticks", "inv"]))
+    # the frame position's documented restarts: switching the LCD on arms the short first line, switching it off rewinds to 0
+    ts.append(pc.ppu_task("enable", ["0", "inv"]))
+    ts.append(pc.ppu_task("disable", ["0", "inv"]))
     both = dict(ac.OV, **{"Audio.l": ac.chan_ov("left"), "Audio.r": ac.chan_ov("right")})
     ts.append(Task(ac.A + "EndMachineCycle[outputs]", ac.A + "EndMachineCycle", variant="outputs", overrides=both, keep=keep_labels({"clock", "samples", "untriggered", "ok"})))
     ts.append(Task(ac.A + "EndMachineCycle[no-outputs]", ac.A + "EndMachineCycle", variant="no-outputs", overrides=ac.OV, keep=keep_labels({"clock", "samples", "untriggered", "ok"})))
